@@ -208,3 +208,7 @@ func (v *VEmu) Start()              { v.E.Start() }
 func (v *VEmu) Close()              { v.E.Close() }
 func (v *VEmu) RequestTermination() { v.E.RequestTermination() }
 func (v *VEmu) WaitForTermination() { v.E.WaitForTermination() }
+
+// VHash exposes the dictionary's hash function so that checks can pick element names that
+// collide in the low bits (forcing the bucket table to double, and allowing it to halve).
+func VHash(s string) uint64 { return calcSipHash(s) }
